@@ -42,4 +42,17 @@ QuickTable(c, M, ins, ps, pnr) ==
        lossless(o) == ScaledProb(Prob(M, FullIn(c, ins), FullOut(c, o)), L)
    IN [o \in outs |-> lossless(o)]
 PSFits(c, ps) == \A r \in ps : \A k \in 1..Len(r[1]) : r[1][k] < InputModes(c)
+\* ---- the SLOS back-end as a layer-by-layer transition system ----
+\* one layer per input photon (in mode order): every amplitude coefficient c[s] is spread to c'[s + e_j] += c[s] * M[j][i].
+\* The square-root ladder factors of the implementation multiply up to sqrt(prod out!) whatever the order, so the amplitude is
+\* c[out] * sqrt(prod out!) / sqrt(prod in!); SlosAgrees states that this is the permanent formula: c[out] * prod out! = Perm.
+SlosLayer(M, n, c, i) ==
+   LET tgt == {[k \in 1..n |-> IF k = j THEN s[k] + 1 ELSE s[k]] : s \in DOMAIN c, j \in 1..n} IN
+   [t \in tgt |-> RSumSet({j \in 1..n : t[j] >= 1 /\ [k \in 1..n |-> IF k = j THEN t[k] - 1 ELSE t[k]] \in DOMAIN c},
+                          LAMBDA j : RMul(c[[k \in 1..n |-> IF k = j THEN t[k] - 1 ELSE t[k]]], M[j][i]))]
+SlosCoeffs(M, fin) == LET n == Len(fin)  vac == [k \in 1..n |-> 0] IN
+   FoldLeft(LAMBDA c, i : SlosLayer(M, n, c, i), (vac :> One), Expand(fin))
+SlosAgrees(M, fin) == LET c == SlosCoeffs(M, fin) IN
+   /\ DOMAIN c = FockBasis(Len(fin), NPhot(fin))
+   /\ \A o \in DOMAIN c : RMul(c[o], RInt(ProdFact(o))) = Perm(M, fin, o)
 =============================================================================
